@@ -63,7 +63,7 @@ def execute(case, tape):
     out["nontrivial"] = common.basic_nontrivial(sim, tape)
     return out
 
-BUDGET = {"quick": (24000, 60), "thorough": (480000, 900)}
+BUDGET = {"quick": (120000, 75), "thorough": (3000000, 1500)}
 REAL = ["pydcop.algorithms.dpop", "pydcop.dcop.relations", "pydcop.dcop.objects",
         "pydcop.computations_graph.pseudotree", "pydcop.infrastructure.computations",
         "pydcop.algorithms (AlgorithmDef, ComputationDef, build_computation)"]
